@@ -178,7 +178,7 @@ def _change_working_directory(newdir, follow_symlinks=False):
         os.chdir(absnew)
     except OSError as e:
         print(f"cd: {e}", file=sys.stderr)
-        return
+        return False
     else:
         if old is not None:
             env["OLDPWD"] = old
@@ -188,6 +188,7 @@ def _change_working_directory(newdir, follow_symlinks=False):
     # Fire event if the path actually changed
     if old != env["PWD"]:
         events.on_chdir.fire(olddir=old, newdir=env["PWD"])
+    return True
 
 
 def _try_cdpath(apath):
@@ -331,9 +332,11 @@ def pushd_fn(
         BACKWARD = "+"
         FORWARD = "-"
 
+    popped_idx = None
     if dir_or_n is None:
         try:
             new_pwd: str | None = DIRSTACK.pop(0)
+            popped_idx = 0
         except IndexError:
             e = "pushd: Directory stack is empty\n"
             return None, e, 1
@@ -357,12 +360,14 @@ def pushd_fn(
             if num == len(DIRSTACK):
                 new_pwd = None
             else:
-                new_pwd = DIRSTACK.pop(len(DIRSTACK) - 1 - num)
+                popped_idx = len(DIRSTACK) - 1 - num
+                new_pwd = DIRSTACK.pop(popped_idx)
         elif dir_or_n.startswith(BACKWARD):
             if num == 0:
                 new_pwd = None
             else:
-                new_pwd = DIRSTACK.pop(num - 1)
+                popped_idx = num - 1
+                new_pwd = DIRSTACK.pop(popped_idx)
         else:
             e = "Invalid argument to pushd: {0}\n"
             return None, e.format(dir_or_n), 1
@@ -371,7 +376,12 @@ def pushd_fn(
             new_pwd = _unc_map_temp_drive(new_pwd)
         if cd:
             DIRSTACK.insert(0, os.path.expanduser(pwd))
-            _change_working_directory(new_pwd)
+            if not _change_working_directory(new_pwd):
+                # the directory could not be entered: leave the stack as it was
+                DIRSTACK.pop(0)
+                if popped_idx is not None:
+                    DIRSTACK.insert(popped_idx, new_pwd)
+                return None, None, 1
         else:
             DIRSTACK.insert(0, os.path.expanduser(new_pwd))
 
@@ -465,7 +475,10 @@ def popd_fn(
             env = XSH.env
             pwd = env["PWD"]
 
-            _change_working_directory(new_pwd)
+            if not _change_working_directory(new_pwd):
+                # the directory could not be entered: leave the stack as it was
+                DIRSTACK.insert(0, new_pwd)
+                return None, None, 1
 
             if ON_WINDOWS:
                 drive, rem_path = os.path.splitdrive(pwd)
